@@ -60,6 +60,17 @@ func handBack(c *Case, src, k int) bool {
 	return c.Free > 0 && int(hx.Mix(c.Seed, uint64(src), uint64(k), 91)%4) < c.Free
 }
 
+// capOf: capacity of the channel the consumer of source i hands to TagAlloc.
+func capOf(c *Case, i int) int {
+	if i < len(c.Caps) && c.Caps[i] >= 0 {
+		return c.Caps[i]
+	}
+	return 16
+}
+
+// chanCaps: what an application may pass to TagAlloc (unbuffered, small, the customary 16).
+var chanCaps = []int{0, 1, 2, 3, 16, 16}
+
 // mop is one request of a mix / burst case with everything the oracle needs.
 type mop struct {
 	kind  string
@@ -299,9 +310,13 @@ func cutsFor(c *Case, stream []byte, bounds []int) []int {
 // hang: a deadline passed. waiting = number of ordinary calls that are, by
 // construction of the case, still waiting inside Clnt.Rpc for a reply the peer
 // has not written: they are not evidence of anything stuck.
+// lagging: the case's Tag consumer has, on purpose, left more completions
+// uncollected than a Tag takes without making the receiver wait: the receiver
+// (and the Tag's processor) parked on the hand-over are expected, not stuck.
 type hang struct {
 	msg     string
 	waiting int
+	lagging bool
 }
 
 func (h hang) Error() string { return h.msg }
@@ -309,7 +324,7 @@ func (h hang) Error() string { return h.msg }
 // culprits filters the goroutine blocks reported by hx.BlockedInGo9p: the
 // processor goroutine of a Tag waiting for work (select in Tag.reqproc) is
 // idle, not stuck, and up to `waiting` callers parked in Clnt.Rpc are expected.
-func culprits(blocked string, waiting int) string {
+func culprits(blocked string, waiting int, lagging bool) string {
 	var keep []string
 	for _, blk := range strings.Split(blocked, "\n\n") {
 		if strings.TrimSpace(blk) == "" {
@@ -325,6 +340,9 @@ func culprits(blocked string, waiting int) string {
 			break
 		}
 		if strings.Contains(inner, "(*Tag).reqproc") && strings.Contains(head, "[select") {
+			continue
+		}
+		if lagging && strings.Contains(head, "[chan send") && (strings.Contains(inner, "(*Tag).reqproc") || strings.Contains(inner, "(*Clnt).recv")) {
 			continue
 		}
 		if waiting > 0 && strings.Contains(inner, "(*Clnt).Rpc(") && strings.Contains(head, "[chan receive") {
@@ -389,7 +407,7 @@ func runMix(c *Case, p *peer.Peer, clnt *go9p.Clnt, free0 int) error {
 			ms.ops = append(ms.ops, newMop(c, clnt, op, i, k))
 		}
 		if s.Tag {
-			ms.ch = make(chan *go9p.Req, 16)
+			ms.ch = make(chan *go9p.Req, capOf(c, i))
 			ms.tag = clnt.TagAlloc(ms.ch)
 			ms.fresh = true
 		} else {
@@ -445,7 +463,7 @@ func runMix(c *Case, p *peer.Peer, clnt *go9p.Clnt, free0 int) error {
 					handedBack++
 				}
 			case <-time.After(deadline):
-				return hang{what + " was not delivered although the peer has answered the request", waiting()}
+				return hang{msg: what + " was not delivered although the peer has answered the request", waiting: waiting()}
 			}
 		} else {
 			select {
@@ -454,7 +472,7 @@ func runMix(c *Case, p *peer.Peer, clnt *go9p.Clnt, free0 int) error {
 					return err
 				}
 			case <-time.After(deadline):
-				return hang{what + ": the call did not return although the peer has answered it", waiting()}
+				return hang{msg: what + ": the call did not return although the peer has answered it", waiting: waiting()}
 			}
 		}
 		ms.collected++
@@ -500,7 +518,7 @@ func runMix(c *Case, p *peer.Peer, clnt *go9p.Clnt, free0 int) error {
 		}
 		r, _ := p.Next(deadline)
 		if r == nil {
-			return hang{fmt.Sprintf("source %d: request %d (%v) did not reach the peer", si, k, o), waiting()}
+			return hang{msg: fmt.Sprintf("source %d: request %d (%v) did not reach the peer", si, k, o), waiting: waiting()}
 		}
 		if err := checkWire(o, r); err != nil {
 			return err
@@ -760,6 +778,8 @@ func TestPropMix(t *testing.T) {
 				s.Ops = append(s.Ops, Op{Kind: rapid.SampledFrom(pool).Draw(t, "kind"), Count: rapid.Uint32Range(0, 3000).Draw(t, "count")})
 			}
 			c.Sources = append(c.Sources, s)
+			// the channel the consumer hands to TagAlloc: unbuffered, small or the customary 16
+			c.Caps = append(c.Caps, rapid.SampledFrom(chanCaps).Draw(t, "chancap"))
 		}
 		// consumers: none / a part / all of the completions are handed back with Tag.ReqFree
 		c.Free = rapid.SampledFrom([]int{0, 1, 2, 3, 4, 4}).Draw(t, "free")
@@ -875,6 +895,10 @@ func TestEnumMix(t *testing.T) {
 				if g.re > 0 {
 					c.Free = 4
 				}
+				// (5 capacities x the lagging consumer of every 7th case: every combination occurs)
+				for si := range g.srcs {
+					c.Caps = append(c.Caps, chanCaps[(idx+si)%5])
+				}
 				if err := execute("mixenum", c); err != nil {
 					hx.Violation("mixenum", c, err.Error())
 					failed = err
@@ -920,7 +944,7 @@ func burstOnce(c *Case, rep int) error {
 	if err != nil {
 		return fmt.Errorf("Connect: %v", err)
 	}
-	defer clnt.Unmount()
+	defer unmount(clnt)
 	_, free0 := clnt.VerifCounts()
 	n, nt, rounds := len(c.Callers), c.NTags, c.Rounds
 	if rounds < 1 {
@@ -1046,7 +1070,7 @@ func burstOnce(c *Case, rep int) error {
 				default:
 				}
 				// nothing has been answered yet: every caller that did issue is waiting for the peer, by design
-				return hang{fmt.Sprintf("burst: client %d round %d: only %d of %d requests reached the peer", rep, k, len(batch), expect), n}
+				return hang{msg: fmt.Sprintf("burst: client %d round %d: only %d of %d requests reached the peer", rep, k, len(batch), expect), waiting: n}
 			}
 			if r.Err != nil {
 				return fmt.Errorf("client sent a frame that does not decode strictly: %v: %x", r.Err, r.Raw)
